@@ -395,7 +395,40 @@ def fx10():
     return Fixture(top, [((8, 6), False), ((8, 6), True), ((10, 7), False)], ops, describe, widgets)
 
 
-FIXTURES = [("frame-icons", fx7), ("empty-containers", fx10), ("hidden-children", fx9), ("shared-children", fx8), ("frame-listbox-tall", lambda: fx1("tall-last")), ("frame-listbox", fx1), ("filler-pile", fx2), ("overlay", fx3), ("scrollbar", fx4), ("padding", fx5), ("twice-uncached", fx6)]
+def fx11():
+    """a ListBox drawn at two heights (the taller view shows items the shorter one does not)"""
+    rows = [urwid.Text(f"row {i}") for i in range(4)]
+    lb = urwid.ListBox(urwid.SimpleFocusListWalker(rows))
+    ops = {
+        "rows[3].set_text": lambda: rows[3].set_text("CHANGED" if rows[3].text == "row 3" else "row 3"),
+        "rows[0].set_text": lambda: rows[0].set_text("changed" if rows[0].text == "row 0" else "row 0"),
+        "rows[2].set_text": lambda: rows[2].set_text("two\nlines" if rows[2].text == "row 2" else "row 2"),
+    }
+
+    def describe():
+        return tuple(r.text for r in rows)
+
+    return Fixture(lb, [((10, 4), True), ((10, 2), True), ((10, 3), False)], ops, describe, [lb, *rows])
+
+
+def fx12():
+    """packed columns at a width where the trailing one does not fit (it is dropped, not given width 0) until its text shrinks"""
+    left = urwid.Text("aaaa")
+    right = urwid.Text("bbbbbbbb")
+    cols = urwid.Columns([("pack", left), ("pack", right)], dividechars=1)
+    ops = {
+        "right.set_text": lambda: right.set_text("bb" if right.text != "bb" else "bbbbbbbb"),
+        "left.set_text": lambda: left.set_text("a" if left.text != "a" else "aaaa"),
+        "cols.focus": lambda: setattr(cols, "focus_position", 1 - cols.focus_position),
+    }
+
+    def describe():
+        return (left.text, right.text, cols.focus_position)
+
+    return Fixture(cols, [((8,), False), ((8,), True), ((20,), False)], ops, describe, [cols, left, right])
+
+
+FIXTURES = [("frame-icons", fx7), ("empty-containers", fx10), ("listbox-two-heights", fx11), ("packed-columns-narrow", fx12), ("hidden-children", fx9), ("shared-children", fx8), ("frame-listbox-tall", lambda: fx1("tall-last")), ("frame-listbox", fx1), ("filler-pile", fx2), ("overlay", fx3), ("scrollbar", fx4), ("padding", fx5), ("twice-uncached", fx6)]
 
 
 def snapshot(c):
@@ -482,6 +515,8 @@ class St:
             elif op[1] == "newest":
                 if self.held:
                     del self.held[-1]
+            elif op[1] == "old":
+                del self.held[:-1]
             else:
                 del self.held[:]
             gc.collect()
@@ -591,17 +626,51 @@ class Spec:
         return True
 
 
+def script_task(task, ctx: Ctx):
+    """beyond the BFS depth: change, redraw at one point, release every older canvas (+ gc), change again, redraw - for every pair of mutators and every point"""
+    (cfg,) = task
+    env.reset("utf-8")
+    name = FIXTURES[cfg][0]
+    probe = St(cfg, nocache=False)
+    muts = list(probe.fx.ops)
+    npts = len(probe.fx.obs)
+    for m1 in muts:
+        for m2 in muts:
+            for j in range(npts):
+                hist = (("mut", m1), ("render", j), ("drop", "old"), ("mut", m2), ("render", j))
+                ctx.count("evaluations")
+                a = St(cfg, nocache=False)
+                for h in hist:
+                    a.do(h)
+                b = St(cfg, nocache=True)
+                for h in hist:
+                    b.do(h)
+                case = {"fixture": name, "hist": hist}
+                if len(a.outs) != len(b.outs):
+                    ctx.violation("harness", f"C06/harness/{name}/script", case, f"twin produced {len(b.outs)} observations, cached run {len(a.outs)}")
+                    continue
+                for x, y in zip(a.outs, b.outs):
+                    if x != y and x[0] == "render":
+                        ctx.violation("same-render", f"C06/same-render/{name}/script/{m2}", case,
+                                      f"render at {a.fx.obs[x[1]]} with the cache: {str(x[2])[:300]}; with the cache emptied first: {str(y[2])[:300]}")
+                        break
+                else:
+                    ctx.distinct("nontrivial", ("script", name, m1, m2, j))
+    CanvasCache.clear()
+
+
 def run(tier, R):
     depth = 3 if tier == "quick" else 4
     spec = Spec(tier)
     res = R.bfs(spec, depth=depth, max_states=2_000_000)
+    R.run_tasks(script_task, [(i,) for i in range(len(FIXTURES))], recheck=0.0)
     cov = {
         "states": res["states"],
         "transitions": res["transitions"],
         "traces_validated_against_impl": int(R.ctx.counts.get("evaluations", 0)),
         "evaluations": res["transitions"],
         "distinct_nontrivial": len(R.ctx.sets.get("nontrivial", ())),
-        "rule": f"BFS depth {depth} from {len(FIXTURES)} fixtures (Frame/ListBox/Columns/AttrMap; Filler/Pile/Columns/Padding/LineBox/GridFlow/placeholder; Overlay/Frame/placeholder; "
+        "rule": "plus, per fixture, every script (mutator m1, redraw at point j, release all older canvases + gc, mutator m2, redraw at j) for all m1, m2, j; " f"BFS depth {depth} from {len(FIXTURES)} fixtures (Frame/ListBox/Columns/AttrMap; Filler/Pile/Columns/Padding/LineBox/GridFlow/placeholder; Overlay/Frame/placeholder; "
         "ScrollBar/Scrollable/Pile; nested Padding/AttrMap/LineBox; the same widget twice + no_cache widget + ListBox over a signal-less walker), each already rendered twice with "
         "both canvases kept alive; ops: render at 3-4 (size, focus) points, rows(), every public mutator / key / click of the fixture (8-19 per fixture), drop oldest / newest / all "
         "handed-out canvases + gc; each observation compared with a from-scratch twin run that empties the cache before every observation; handed-out canvases re-read after every "
